@@ -289,6 +289,41 @@ func hasAbstract(con *Contract, what string) bool {
 	return false
 }
 
+// staticOnlyContract: `abstract body` is honoured only while the (possibly merged) contract says nothing else: every
+// requires clause is a propagated symbol, there are no ensures / loop clauses, and the tags are propagated
+// properties. When another contract file gives the same function real clauses, the merged unit is executed
+// symbolically as usual (the `abstract body` of the stub is void) instead of switching that verification off.
+func staticOnlyContract(con *Contract) bool {
+	if len(con.Ensures) > 0 || len(con.Invs) > 0 || len(con.Decs) > 0 || len(con.IterEns) > 0 || len(con.Steps) > 0 || con.Assigns != "" || len(con.Modifies) > 0 {
+		return false
+	}
+	isSym := func(n string) bool {
+		for _, d := range propagateDecls {
+			if d.Sym == n {
+				return true
+			}
+		}
+		return false
+	}
+	for _, r := range con.Requires {
+		if id, ok := r.Expr.(EIdent); !ok || !isSym(id.Name) {
+			return false
+		}
+	}
+	for _, t := range con.Tags {
+		ok := false
+		for _, d := range propagateDecls {
+			if d.Prop == t {
+				ok = true
+			}
+		}
+		if !ok {
+			return false
+		}
+	}
+	return true
+}
+
 // genStaticUnit: `abstract body` — the unit is checked by the call-graph analysis only.
 func (e *Engine) genStaticUnit(key string, con *Contract) (*VC, error) {
 	fn := e.Funcs[key]
